@@ -28,7 +28,7 @@ class Outcome:
 
 
 def run_alg(alg_spec: dict, ds, sc, one: Optional[bool], sched_spec: Optional[dict], spy_nested: bool = False,
-            alg=None) -> Outcome:
+            alg=None, bench: Optional[bool] = None) -> Outcome:
     """One call of compute_consensus_rankings with every random draw decided by the given schedule."""
     spies: List[Spy] = []
     s = sched.Sched.from_spec(sched_spec)
@@ -38,7 +38,10 @@ def run_alg(alg_spec: dict, ds, sc, one: Optional[bool], sched_spec: Optional[di
             ok, alg = call(build_alg, alg_spec, spies, spy_nested)
             if not ok:
                 return _classify(False, alg, s, spies, alg_label(alg_spec) + " [constructor]")
-        if one is None:
+        if bench is not None:
+            # the fourth positional parameter of the public signature (what bench_time_consensus passes)
+            ok, res = call(alg.compute_consensus_rankings, ds, sc, True if one is None else one, bench)
+        elif one is None:
             ok, res = call(alg.compute_consensus_rankings, ds, sc)
         else:
             ok, res = call(alg.compute_consensus_rankings, ds, sc, one)
